@@ -107,9 +107,37 @@ def _work(args):
             rec = archiverun.project_run(cp, "g", texts, members, records, r, log.calls, method, raised, idents)
         except OutOfModel:
             return {"oom": True}
-        rec["tid"] = gi * 10 + wi
+        rec["tid"] = (gi * 10 + wi) * 2
         rec["_info"] = {"method": method, "texts": texts, "records": records, "dialect": dia}
         out.append(rec)
+        if gi % 2 == 0:
+            # the same group again, at once, on the same instance (more often than not within the same second): the run gets a directory
+            # of its own and its archive says what THIS run did - nothing of the earlier run's lines, variables or printouts in it
+            r2 = grouprun.Recorder()
+            log2 = archiverun.CallLog(r2)
+            raised2 = None
+            try:
+                with scratch.silence():
+                    r2.install()
+                    log2.install()
+                    try:
+                        pharness.run_method(cp, method, "g", "data")
+                    except Exception as e:
+                        raised2 = f"{type(e).__name__}: {e}"
+            finally:
+                log2.uninstall()
+                r2.uninstall()
+            if raised2:
+                return {"harness": f"unexpected exception from the second {method}: {raised2}", "texts": texts, "records": records}
+            try:
+                rec2 = archiverun.project_run(cp, "g", texts, members, records, r2, log2.calls, method, raised2, idents)
+            except OutOfModel:
+                return {"oom": True}
+            rec2["tid"] = (gi * 10 + wi) * 2 + 1
+            rec2["_info"] = {"method": method + " (run again at once on the same instance)", "texts": texts, "records": records, "dialect": dia}
+            if len(pharness.run_dirs(cp.config.archive_path, "g")) != 2:
+                rec2["other_dirs"] = rec2["other_dirs"] + ["<the second run did not get a run directory of its own>"]
+            out.append(rec2)
     return {"recs": out}
 
 
